@@ -377,10 +377,16 @@ def archive_check(cfg, nsteps, interval_steps, t_frac, mode, keep_arg):
     tend = sim.t
     del sim
     sa = rebound.Simulationarchive(fn)
-    t = t_frac * tend
+    t = sa.tmin + t_frac * (sa.tmax - sa.tmin)
     kw = {} if keep_arg is None else {"keep_unsynchronized": keep_arg}
-    s = sa.getSimulation(t, mode=mode, **kw)
-    got = pstate(s); tg = s.t
+    try:
+        s = sa.getSimulation(t, mode=mode, **kw)
+        tg = s.t
+        s.steps(2); s.synchronize()          # the returned simulation must be usable: continue for two steps
+    except RuntimeError as e:
+        del sa; os.remove(fn)
+        return float("inf"), 0.0, "RAISES: %s" % (e,)
+    got = pstate(s)
     del sa
     os.remove(fn)
     ref = make(dict(cfg, safe=1, keep=0))
@@ -391,6 +397,7 @@ def archive_check(cfg, nsteps, interval_steps, t_frac, mode, keep_arg):
         k = int(round(tg / dt))
         ref.steps(k)
         if abs(ref.t - tg) > 1e-9 * max(1.0, abs(tg)): return float("inf"), 0.0, "returned time %r is not on the step grid" % tg
+    ref.steps(2)
     want = pstate(ref)
     err = maxdiff(want, got, scales(cfg, want))
     n = max(1, int(abs(tg / dt)) + 1)
@@ -537,7 +544,7 @@ def main():
                 rep["evaluations"] += 1; keys.add(("archive", label(cfg), mode, keep_arg))
                 worst["archive"] = max(worst.get("archive", 0.0), err / tol if tol else float("inf"))
                 if not (err <= tol):
-                    fail("archive-getSimulation-differs:%s:%s" % (cfg["integ"], mode),
+                    fail(("archive-getSimulation-raises:%s" % cfg["integ"]) if note.startswith("RAISES") else "archive-getSimulation-differs:%s:%s" % (cfg["integ"], mode),
                          "getSimulation(t, mode=%r, keep_unsynchronized=%r) of a safe_mode=0 archive differs from the direct safe-mode run by %.3g (tolerance %.3g) %s"
                          % (mode, keep_arg, err, tol, note),
                          {"check": "archive", "cfg": cfg, "nsteps": n, "interval": iv, "t_frac": tf, "mode": mode, "keep_arg": keep_arg})
